@@ -586,7 +586,7 @@ def get_pushed_variable(
         >>> get_pushed_variable(g, ('a', ':ARG0', 'b'))
         'b'
     """
-    for epi in g.epidata[triple]:
+    for epi in g.epidata.get(triple, []):
         if isinstance(epi, Push):
             return epi.variable
     return None
@@ -674,7 +674,7 @@ def node_contexts(g: Graph) -> List[Union[Variable, None]]:
             stack.append(pushed)
 
         try:
-            for epi in g.epidata[triple]:
+            for epi in g.epidata.get(triple, []):
                 if isinstance(epi, Pop):
                     stack.pop()
         except IndexError:
